@@ -4845,6 +4845,35 @@ fn resolve_addr_to_index(if_kind: IfKind, interfaces: &[Interface]) -> IfKind {
     if_kind
 }
 
+/// Verification-only access to private items of this module (feature `verif-hooks`).
+#[cfg(feature = "verif-hooks")]
+#[allow(dead_code)]
+pub(crate) mod verif_access {
+    use super::*;
+
+    pub(crate) fn check_service_name_length(ty_domain: &str, limit: u8) -> Result<()> {
+        super::check_service_name_length(ty_domain, limit)
+    }
+    pub(crate) fn check_domain_suffix(name: &str) -> Result<()> {
+        super::check_domain_suffix(name)
+    }
+    pub(crate) fn check_service_name(fullname: &str) -> Result<()> {
+        super::check_service_name(fullname)
+    }
+    pub(crate) fn check_hostname(hostname: &str) -> Result<()> {
+        super::check_hostname(hostname)
+    }
+    pub(crate) fn valid_instance_name(name: &str) -> bool {
+        super::valid_instance_name(name)
+    }
+    pub(crate) fn name_change(original: &str) -> String {
+        super::name_change(original)
+    }
+    pub(crate) fn hostname_change(original: &str) -> String {
+        super::hostname_change(original)
+    }
+}
+
 #[cfg(test)]
 mod tests {
     use super::{
